@@ -210,6 +210,9 @@ enum Sc {
     Chain { shape: u8, weights: [u32; 4], tsize: usize, pop: Vec<i32>, rng: RngSpec },
     /// fixed-size array population
     Array { sel: u8, tsize: usize, pop: [i32; 4], rng: RngSpec },
+    /// a population of 2^32 + delta zero-sized individuals (cheap to build; more members than a 32-bit index can
+    /// address): uniform random selection, bare and through a weighted chain / dynamic list / erased pointer
+    Huge { delta: i64, log2: u32, rng: RngSpec },
 }
 
 type Ind<R> = EcIndividual<u32, TestResults<R>>;
@@ -403,6 +406,49 @@ fn make_pop<R: From<i64> + Clone + for<'a> std::iter::Sum<&'a R>>(rows: &[Vec<i6
             EcIndividual::new(i as u32, TestResults { results, total_result })
         })
         .collect()
+}
+
+/// Uniform random selection from 2^log2 + delta zero-sized individuals must return a member (never panic, never
+/// report an empty population), bare and through Weighted / DynWeighted / an erased pointer.
+fn run_huge(delta: i64, log2: u32, spec: &RngSpec, obs: &mut Obs) -> Vec<Violation> {
+    let mut v = Vec::new();
+    let Some(n) = (1usize << log2).checked_add_signed(delta as isize) else { return v };
+    let pop: Vec<()> = vec![(); n];
+    obs.hit("probe.population-of-2^32-zero-sized-individuals");
+    let mut rng = spec.build();
+    let mut report = |what: &str, r: Result<Result<(), String>, simcore::Panicked>| match r {
+        Ok(Ok(())) => {}
+        Ok(Err(e)) => v.push(Violation::new(
+            "returns-member-of-population",
+            format!("error-on-huge-population:{what}"),
+            format!("{what} on a population of {n} (zero-sized) individuals reported `{e}`"),
+        )),
+        Err(p) => v.push(Violation::new(
+            "never-panics",
+            format!("panic:{what}:huge-population"),
+            format!("{what} on a population of {n} (zero-sized) individuals panicked: {}", p.message),
+        )),
+    };
+    let r = catch(|| Random.select(&pop, &mut rng).map(|_| ()).map_err(|e| format!("{e:?}")));
+    report("Random", r);
+    let r = catch(|| {
+        let w = Weighted::new(Random, 3).with_item_and_weight(Random, 1).map_err(|e| format!("{e:?}"))?;
+        w.select(&pop, &mut rng).map(|_| ()).map_err(|e| format!("{e:?}"))
+    });
+    report("Weighted(Random,Random)", r);
+    let r = catch(|| {
+        let d: DynWeighted<Vec<()>> = DynWeighted::new(Random, 1).with_selector(Random, 2);
+        d.select(&pop, &mut rng).map(|_| ()).map_err(|e| format!("{e:?}"))
+    });
+    report("DynWeighted(Random,Random)", r);
+    let r = catch(|| {
+        let b: Box<dyn DynSelector<Vec<()>> + Send + Sync> = Box::new(Random);
+        b.select(&pop, &mut rng).map(|_| ()).map_err(|e| format!("{e:?}"))
+    });
+    report("Box<dyn DynSelector>(Random)", r);
+    obs.count("draws", rng.draws());
+    obs.nontrivial(mix(mix(0x4a6e, delta as u64), u64::from(log2)));
+    v
 }
 
 fn run_tree<R>(rows: &[Vec<i64>], sel: &Sel, spec: &RngSpec, obs: &mut Obs) -> Vec<Violation>
@@ -792,6 +838,7 @@ impl Check for C06 {
                     rng,
                 }
             }
+            2 if g.chance(1, 400) => Sc::Huge { delta: *g.pick(&[-1i64, 0, 0, 1, 12345]), log2: *g.pick(&[32u32, 32, 33]), rng },
             2 => Sc::Array {
                 sel: g.below(4) as u8,
                 tsize: g.urange(1, 6),
@@ -833,6 +880,7 @@ impl Check for C06 {
             },
             Sc::Chain { shape, weights, tsize, pop, rng } => run_chain(*shape, *weights, *tsize, pop, rng, obs),
             Sc::Array { sel, tsize, pop, rng } => run_array(*sel, *tsize, pop, rng, obs),
+            Sc::Huge { delta, log2, rng } => run_huge(*delta, *log2, rng, obs),
         }
     }
 
